@@ -318,8 +318,60 @@ class SolverIR:
     def run_method(self, cls, meth, args=None):
         self.install_subscript()
         m = self.model.member(cls, meth)
-        outs = self.sx.run(m.node, m.module, cls, None, args)
+        outs = self.sx.run(desugar_list_loops(m.node), m.module, cls, None, args)
         return m, outs
+
+
+def desugar_list_loops(fn):
+    """`xs = [f(k) for k in range(...)]` ... `for x in xs: body`  ->  `for k in range(...): x = f(k); body`
+    when xs is bound once and used only as that loop's iterable (a pre-computed list of instants is the same
+    iteration space as the index loop that builds it).  Returns fn itself when nothing applies."""
+    import copy
+    binds, uses = {}, {}
+    for n in ast.walk(fn):
+        if isinstance(n, ast.Assign) and len(n.targets) == 1 and isinstance(n.targets[0], ast.Name):
+            binds.setdefault(n.targets[0].id, []).append(n)
+        if isinstance(n, ast.Name) and isinstance(n.ctx, ast.Load):
+            uses[n.id] = uses.get(n.id, 0) + 1
+    cands = {}
+    for name, asg in binds.items():
+        if len(asg) != 1 or uses.get(name, 0) != 1:
+            continue
+        v = asg[0].value
+        if isinstance(v, ast.Call) and isinstance(v.func, ast.Name) and v.func.id in ('list', 'tuple') and len(v.args) == 1:
+            v = v.args[0]
+        if isinstance(v, (ast.ListComp, ast.GeneratorExp)) and len(v.generators) == 1 and not v.generators[0].ifs \
+                and isinstance(v.generators[0].target, ast.Name) and isinstance(v.generators[0].iter, ast.Call) \
+                and isinstance(v.generators[0].iter.func, ast.Name) and v.generators[0].iter.func.id == 'range':
+            k = v.generators[0].target.id
+            if uses.get(k, 0) == sum(1 for x in ast.walk(v.elt) if isinstance(x, ast.Name) and x.id == k):
+                cands[name] = (asg[0], v)
+    loops = [n for n in ast.walk(fn) if isinstance(n, ast.For) and isinstance(n.iter, ast.Name) and n.iter.id in cands
+             and isinstance(n.target, ast.Name) and not n.orelse]
+    if not loops:
+        return fn
+    fn2 = copy.deepcopy(fn)
+
+    class T(ast.NodeTransformer):
+        def visit_Assign(self, node):
+            if len(node.targets) == 1 and isinstance(node.targets[0], ast.Name) and node.targets[0].id in cands \
+                    and any(lp.iter.id == node.targets[0].id for lp in loops):
+                return ast.copy_location(ast.Pass(), node)
+            return node
+
+        def visit_For(self, node):
+            self.generic_visit(node)
+            if isinstance(node.iter, ast.Name) and node.iter.id in cands and isinstance(node.target, ast.Name) and not node.orelse:
+                _, comp = cands[node.iter.id]
+                gen = comp.generators[0]
+                bind = ast.copy_location(ast.Assign(targets=[ast.Name(node.target.id, ast.Store())], value=copy.deepcopy(comp.elt)), node)
+                new = ast.For(target=ast.Name(gen.target.id, ast.Store()), iter=copy.deepcopy(gen.iter), body=[bind] + node.body,
+                              orelse=[], type_comment=None)
+                return ast.fix_missing_locations(ast.copy_location(new, node))
+            return node
+    fn2 = T().visit(fn2)
+    ast.fix_missing_locations(fn2)
+    return fn2
 
 
 def _carry_like(v, name):
